@@ -15,6 +15,8 @@ COMM = {"fp32": (torch.float32, "FP32"), "bf16": (torch.bfloat16, "BF16"), "fp16
 def set_grads(draw, params, masks_t, t):
     for gi, g in enumerate(draw["groups"]):
         for pi, (p, shp) in enumerate(zip(params[gi], g["shapes"])):
+            if draw.get("toggle_rg"):
+                p.requires_grad_(bool(masks_t[gi][pi]))
             p.grad = realopt.make_grad(draw, gi, pi, t, shp) if masks_t[gi][pi] else None
 
 
